@@ -167,7 +167,7 @@ Print Assumptions C08_eventual_once.
 
 (* ---- non-vacuity: concrete runs of the model ---- *)
 Definition ex_week : bytes := s2b "2024-01-07"%string.
-Definition ex_cfg : ucfg := mkCfg (1705000000%Z, 0%Z) true None (s2b "/t/local/"%string).
+Definition ex_cfg : ucfg := mkCfg (1705000000%Z, 0%Z) true None (s2b "/t/local/"%string) 0%Z.
 Definition ex_S (i : nat) : nat * act := (i, AStep O200).
 
 (* a pre-existing ready report is posted, acknowledged, recorded, removed *)
@@ -248,3 +248,42 @@ Theorem C08_lock_kept_by_others : forall st i j a tj,
   d_mem (up_dir (s_fs (step st (i, a)))) (lock_name (t_week tj)) = true.
 Proof. exact lock_kept_by_others. Qed.
 Print Assumptions C08_lock_kept_by_others.
+
+(* ---- progress over a HISTORY of program starts (Model/UploadStarts.v on the
+        token model of Model/Start.v, C16): each start tries the upload token
+        alone; a start acquires iff there is no token or the last ACQUISITION
+        is at least a period ago, and a refused start leaves the token's time
+        alone - so a program that starts more often than once per period is
+        not starved of uploads, and acquisitions stay a period apart
+        (oracles token_starved / token_too_often of the suite) ---- *)
+From Tele Require Import Model.Start Model.UploadStarts Proofs.UploadStartsFacts.
+
+Theorem C08_token_acquire_spec : forall period now tok,
+  acquire_seq period now tok =
+  (match tok with None => true | Some m => negb (token_fresh period now m) end,
+   match tok with
+   | None => Some now
+   | Some m => if token_fresh period now m then Some m else Some now
+   end).
+Proof. exact acquire_seq_spec. Qed.
+Print Assumptions C08_token_acquire_spec.
+
+Theorem C08_token_refused_keeps_window : forall period now tok,
+  fst (acquire_seq period now tok) = false -> snd (acquire_seq period now tok) = tok.
+Proof. exact refused_keeps_token. Qed.
+Print Assumptions C08_token_refused_keeps_window.
+
+Theorem C08_starts_not_starved : forall period times tok,
+  not_starved period tok (combine times (map fst (starts_hist period tok times))) = true.
+Proof. exact starts_not_starved. Qed.
+Print Assumptions C08_starts_not_starved.
+
+Theorem C08_starts_rate_ok : forall period times tok,
+  rate_ok period tok (combine times (map fst (starts_hist period tok times))) = true.
+Proof. exact starts_rate_ok. Qed.
+Print Assumptions C08_starts_rate_ok.
+
+(* starts every 13 hours: the third one (26 h after the first) acquires again *)
+Example C08_ex_starts_13h :
+  map fst (starts_hist 24 None [0; 13; 26; 39; 52]%Z) = [true; false; true; false; true].
+Proof. vm_compute. reflexivity. Qed.
